@@ -197,6 +197,9 @@ def compare(ctx, rule, instance, where, code, ref_poly, ref_dims=None, facts=Non
             ctx.violation('AXIS', instance + ' (axis roles)', '%s:%d %s' % (f.module, f.line, where.split(' ', 1)[-1]),
                           'arrays indexed by different axes are combined: %s' % f.msg, 'label-clash:' + f.msg[:80])
             return False
+    if isinstance(code, Unk) and code.definite:
+        ctx.violation('AXIS', instance + ' (axis roles)', where, 'the value is built with inconsistent axis roles: %s' % code.why, 'axis:' + code.why[:80])
+        return False
     if isinstance(code, Unk) or not isinstance(code, Arr):
         ctx.undecided(rule, instance, where, 'value not modelled: %r' % (code,))
         return False
